@@ -72,6 +72,9 @@ func (in *Interp) lookupGlobal(s *V) (*V, *Err) {
 	}
 	switch strings.Count(name, ":") {
 	case 0:
+		if in.Cur.Undetermined {
+			return nil, in.unsure("reference resolved in the package a refused in-package left current")
+		}
 		if v, ok := in.Cur.Syms[name]; ok {
 			return v, nil
 		}
@@ -80,6 +83,9 @@ func (in *Interp) lookupGlobal(s *V) (*V, *Err) {
 		i := strings.IndexByte(name, ':')
 		if i == 0 {
 			return s, nil
+		}
+		if in.Limbo[name[:i]] {
+			return nil, in.unsure("reference into a package only refused calls have named")
 		}
 		p := in.Pkgs[name[:i]]
 		if p == nil {
@@ -1320,7 +1326,29 @@ func init() {
 		defFn(p, "in-package", 1, -1, func(in *Interp, a []*V) (*V, *Err) {
 			n, e := nameOf(in, a[0])
 			if e != nil {
+				if in.RefusedPackageOpsUnjudged {
+					in.RefusedCalls++
+				}
 				return nil, e
+			}
+			if in.RefusedPackageOpsUnjudged {
+				for _, d := range a[1:] {
+					if d.K != KStr {
+						// refused: what it leaves behind is not the property's matter
+						in.RefusedCalls++
+						if in.Pkgs[n] == nil {
+							if in.Limbo == nil {
+								in.Limbo = map[string]bool{}
+							}
+							in.Limbo[n] = true
+						}
+						in.Cur = &Pkg{Name: "<undetermined>", Syms: map[string]*V{}, Undetermined: true}
+						return nil, in.errf("type")
+					}
+				}
+				// a successful in-package: a name in limbo becomes a package that exists
+				// now, new or as good as new
+				delete(in.Limbo, n)
 			}
 			pk := in.Pkgs[n]
 			if pk == nil {
@@ -1335,13 +1363,28 @@ func init() {
 			return Nil(), nil
 		})
 		defFn(p, "use-package", 0, -1, func(in *Interp, a []*V) (*V, *Err) {
+			if in.Cur.Undetermined {
+				return nil, in.unsure("use-package into the package a refused in-package left current")
+			}
 			for _, x := range a {
 				n, e := nameOf(in, x)
 				if e != nil {
+					if in.RefusedPackageOpsUnjudged {
+						in.RefusedCalls++
+					}
 					return nil, e
+				}
+				if in.Limbo[n] {
+					return nil, in.unsure("use-package of a package only refused calls have named")
 				}
 				src := in.Pkgs[n]
 				if src == nil {
+					// refused before anything was copied; as in the main family's
+					// histories, which have always contained this refusal, the name is
+					// not registered by it
+					if in.RefusedPackageOpsUnjudged {
+						in.RefusedCalls++
+					}
 					return nil, in.errf("unknown-package")
 				}
 				// exactly the exported bindings, as they are at this moment
@@ -1379,7 +1422,13 @@ func init() {
 			return nil
 		}
 		defFn(p, "export", 0, -1, func(in *Interp, a []*V) (*V, *Err) {
+			if in.Cur.Undetermined {
+				return nil, in.unsure("export from the package a refused in-package left current")
+			}
 			if e := export(in, a); e != nil {
+				if in.RefusedPackageOpsUnjudged {
+					in.RefusedCalls++
+				}
 				return nil, e
 			}
 			return Nil(), nil
